@@ -6,5 +6,5 @@ CONSTANTS
   PerLink = FALSE
 SPECIFICATION FairSpec
 VIEW View
-INVARIANTS NoEcho OncePerPath LoopFree Reach AtMostThree
-PROPERTIES Termination
+INVARIANTS NoEcho LoopFree Reach AtMostThree
+PROPERTIES OncePerPathA Termination
